@@ -127,12 +127,13 @@ func vClientLines(now int64, full bool) []VLine {
 		"JOIN #c "+vCaptcha([]byte("other"), okJoin, "authXXXX", false), "JOIN #c "+tok(fmt.Sprintf("okay:join:%d:#d", now)),
 		"JOIN #c "+tok(fmt.Sprintf("okay:join:%d", now)), "JOIN #c "+tok("okay:join:nan:#c"), "JOIN #c a.b", "JOIN #c !.!.!", "JOIN #c "+tok(fmt.Sprintf("okay:login:%d:", now)))
 	add("part", "PART #c", "PART #C", "PART #d", "PART #c,#d", "PART #none", "PART #c :bye", "PART", "PART :", "PART ,")
-	add("kick", "KICK #c a", "KICK #c b", "KICK #c B", "KICK #c c", "KICK #c nobody", "KICK #d a", "KICK #d b", "KICK #c a :reason", "KICK #c b :", "KICK #c ChanServ", "KICK #none a", "KICK #c", "KICK", "KICK #c :", "KICK : :")
+	add("kick", "KICK #c a", "KICK #c b", "KICK #c B", "KICK #c c", "KICK #c nobody", "KICK #d a", "KICK #d b", "KICK #c a :reason", "KICK #c b :", "KICK #c ChanServ", "KICK #none a", "KICK #c", "KICK", "KICK #c :", "KICK : :", "KICK #C a", "KICK #C b", "KICK #C c :x", "KICK #D b")
 	add("topic", "TOPIC #c", "TOPIC #c :", "TOPIC #c :new topic", "TOPIC #c new", "TOPIC #d :x", "TOPIC #d :", "TOPIC #C :t2", "TOPIC #none :x", "TOPIC #none", "TOPIC", "TOPIC :", "TOPIC #c a b", "TOPIC #c a :")
 	add("mode", "MODE #c", "MODE #c +i", "MODE #c -i", "MODE #c +k key", "MODE #c +k KEY", "MODE #c +k", "MODE #c -k", "MODE #c -k key", "MODE #c +b", "MODE #c b", "MODE #c +b a!*@*", "MODE #c +b b!*@*", "MODE #c -b b!*@*", "MODE #c -b a!*@*", "MODE #c +b *!*@10.0.0.*",
 		"MODE #c +b *!*@robust/0x2", "MODE #c +b *!*@robust/0x5", "MODE #c +b *!*@robust/0xzz", "MODE #c +b [", "MODE #c +b (", "MODE #c +b \\", "MODE #c +o b", "MODE #c -o a", "MODE #c -o b", "MODE #c +o a", "MODE #c +o nobody", "MODE #c +o", "MODE #c +x", "MODE #c -x", "MODE #c +t", "MODE #c -t",
 		"MODE #c +n", "MODE #c -n", "MODE #c +s", "MODE #c -s", "MODE #c +t-t", "MODE #c +nst", "MODE #c +G", "MODE #c +z", "MODE #c +ob b a!*@*", "MODE #c +", "MODE #c -", "MODE #c :", "MODE #c o", "MODE #c +r", "MODE #c +d x", "MODE #d +i", "MODE #d +o a", "MODE #d -o b", "MODE #d +k k2",
-		"MODE a +i", "MODE a -i", "MODE a +G", "MODE a -G", "MODE b +i", "MODE b", "MODE a", "MODE a +o", "MODE a +", "MODE a :", "MODE", "MODE #none +i", "MODE nobody +i", "MODE ChanServ +i", "MODE A +i", "MODE a +iG", "MODE a +r")
+		"MODE a +i", "MODE a -i", "MODE a +G", "MODE a -G", "MODE b +i", "MODE b", "MODE a", "MODE a +o", "MODE a +", "MODE a :", "MODE", "MODE #none +i", "MODE nobody +i", "MODE ChanServ +i", "MODE A +i", "MODE a +iG", "MODE a +r",
+		"MODE #C +i", "MODE #C +o b", "MODE #C -o a", "MODE #C +k key", "MODE #C +b b!*@*", "MODE #C", "MODE #D +o a")
 	add("invite", "INVITE b #c", "INVITE a #c", "INVITE c #c", "INVITE nobody #c", "INVITE b #none", "INVITE b #d", "INVITE a #d", "INVITE c #d", "INVITE b", "INVITE", "INVITE ChanServ #c", "INVITE b #C", "INVITE B #c")
 	add("kill", "KILL b :bye", "KILL a :self", "KILL c :x", "KILL nobody :x", "KILL ChanServ :x", "KILL b", "KILL", "KILL b :", "KILL svc :x", "KILL services.robustirc.net :x")
 	add("gline", "GLINE b :spam", "GLINE a :self", "GLINE c :x", "GLINE nobody :x", "GLINE ChanServ :x", "GLINE b", "GLINE")
@@ -141,7 +142,7 @@ func vClientLines(now int64, full bool) []VLine {
 	}
 	add("alias", "NS identify x", "CS", "NICKSERV :a b", "OS :", "MS a :b", "BS x", "HS", "CHANSERV op #c a", "nickserv x")
 	add("query", "WHO", "WHO #c", "WHO #d", "WHO #none", "WHO a", "WHO :", "WHOIS a", "WHOIS b", "WHOIS c", "WHOIS nobody", "WHOIS ChanServ", "WHOIS", "WHOIS :", "WHOIS a b", "NAMES", "NAMES #c", "NAMES #d", "NAMES #none", "NAMES :", "NAMES #c,#d",
-		"LIST", "LIST #c", "LIST #c,#d", "LIST :", "LIST #none", "LIST ,", "ISON a b c nobody", "ISON", "ISON :", "USERHOST a b ChanServ nobody", "USERHOST", "USERHOST :", "MOTD", "MOTD x", "PING", "PING x", "PING :", "ping :lower", "PONG x", "KNOCK #c", "KNOCK #c :let me in", "KNOCK #d", "KNOCK #none", "KNOCK", "KNOCK #c a b c",
+		"LIST", "LIST #c", "LIST #c,#d", "LIST :", "LIST #none", "LIST ,", "ISON a b c nobody", "ISON", "ISON :", "USERHOST a b ChanServ nobody", "USERHOST", "USERHOST :", "MOTD", "MOTD x", "PING", "PING x", "PING :", "ping :lower", "PONG x", "KNOCK #c", "KNOCK #c :let me in", "KNOCK #d", "KNOCK #none", "KNOCK", "KNOCK #c a b c", "KNOCK #C", "WHO #C", "NAMES #C", "LIST #C", "INVITE c #C", "PART #C :x", "TOPIC #C", "JOIN #C key", "NOTICE #C :x",
 		"AWAY", "AWAY :gone", "AWAY :", "AWAY :  ", "AWAY gone fishing")
 	add("quit", "QUIT", "QUIT :bye", "QUIT :", "QUIT a b")
 	add("server", "SERVER services.robustirc.net 1 :Services", "SERVER s", "SERVER", "SERVER a b", "SERVER : :")
@@ -317,7 +318,7 @@ func vFocusedLines() []VLine {
 	var ls []VLine
 	for _, d := range []string{
 		"JOIN #c", "JOIN #d", "JOIN #c key", "JOIN #c,#d", "PART #c", "PART #d",
-		"KICK #c a", "KICK #c b", "KICK #c c", "KICK #d b", "KICK #c A2",
+		"KICK #c a", "KICK #c b", "KICK #c c", "KICK #d b", "KICK #c A2", "KICK #C b", "PART #C", "JOIN #C",
 		"MODE #c +o a", "MODE #c -o a", "MODE #c +o b", "MODE #c -o b", "MODE #c +o c", "MODE #c +i", "MODE #c -i", "MODE #c +k key", "MODE #c -k",
 		"MODE #c +b b!*@*", "MODE #c -b b!*@*", "MODE #c +s", "MODE #c -n", "MODE #c -t", "MODE #d +o a", "MODE #d +i",
 		"NICK A2", "NICK a2", "NICK a", "NICK b", "NICK c", "NICK B",
